@@ -2,6 +2,7 @@
 from __future__ import annotations
 
 import ast
+import re
 
 from .. import anchors as A
 from ..model import AnalysisError, FuncInfo, Project, call_name, kwarg, walk_local
@@ -106,7 +107,14 @@ def check(P: Project, R: Report) -> None:
         R.ob("R2", "one StdioParameters per returning path", len(pe) == 1, f"{ld.module.rel}:{node.lineno}", f"{pe}")
         if len(pe) != 1:
             continue
-        kv = dict(x.split("=", 1) for x in pe[0][7:].split("|"))
+        parts_ = [x for x in pe[0][7:].split("|") if x]
+        R.need(all("=" in x for x in parts_), f"the StdioParameters construction `{pe[0][7:][:80]}` is written in a shape this rule cannot read (expected keyword arguments)")
+        kv = dict(x.split("=", 1) for x in parts_)
+        # a parameter with a constant default reads as that default (the behaviour a caller gets without overriding it)
+        for p_ in ld.params():
+            d_ = ld.param_default(p_)
+            if isinstance(d_, ast.Constant) and isinstance(d_.value, str) and p_ not in (name, pth):
+                kv = {k_: re.sub(rf"(?<![\w.'\"]){re.escape(p_)}(?![\w'\"])", repr(d_.value), v_) for k_, v_ in kv.items()}
         entry = f".get('mcpServers', {{}}).get({name})"
         for k, want in (("command", "['command']"), ("args", ".get('args', [])"), ("env", ".get('env')")):
             v = kv.get(k, "<missing>")
@@ -123,12 +131,17 @@ def check(P: Project, R: Report) -> None:
         R.ob("R2", "returns only for a configured server", any("not " not in l and ".get('mcpServers'" in la.origin(l) for l in st.lits) or any(l.startswith("server_config") for l in st.lits) or any(".get(" in l and not l.startswith("not ") for l in st.lits), f"{ld.module.rel}:{node.lineno}", f"literals {sorted(l[:50] for l in st.lits)}")
 
     # ------------------------------------------------------------------ R4
+    for t_ in walk_local(ld.node):
+        if isinstance(t_, ast.Try):
+            for h_ in t_.handlers:
+                if h_.name and any(isinstance(c_, ast.Call) and call_name(c_) == "isinstance" and c_.args and ast.unparse(c_.args[0]) == h_.name for b_ in h_.body for c_ in walk_local(b_)):
+                    R.need(False, f"load_config: the handler at line {h_.lineno} dispatches on the class of the caught exception (isinstance) — which class leaves on which path is not readable by this rule")
     raised = {}
     for st, tag, node in lo.exc:
         if isinstance(node, ast.Raise):
             raised.setdefault(tag, []).append((st, node))
     # unknown server -> ValueError
-    unknown = [(st, n) for tag, lst in raised.items() for st, n in lst if any(l.startswith("not ") and "mcpServers" in la.origin(l) for l in st.lits)]
+    unknown = [(st, n) for tag, lst in raised.items() for st, n in lst if any(l.startswith("not ") and ("mcpServers" in la.origin(l) or f".get({name})" in la.origin(l)) for l in st.lits)]
     tags_unknown = {t for t, lst in raised.items() for st, n in lst if (st, n) in unknown}
     R.ob("R4", "unknown server name → ValueError", tags_unknown == {"ValueError"}, ld.where, f"classes raised on the unknown-name path: {sorted(tags_unknown)}")
     for t in walk_local(ld.node):
@@ -160,6 +173,12 @@ def check(P: Project, R: Report) -> None:
     f, c = spawn
     R.fn(f.fq)
     a0 = c.args[0] if c.args else kwarg(c, "command")
+    if isinstance(a0, ast.Name):
+        # the argument list bound to a local first (`argv = [cmd, *args]`): read its single definition
+        ds_ = [s_ for s_ in walk_local(f.node) if isinstance(s_, ast.Assign) and len(s_.targets) == 1 and ast.unparse(s_.targets[0]) == a0.id]
+        touched = [x for x in walk_local(f.node) if isinstance(x, ast.Call) and isinstance(x.func, ast.Attribute) and isinstance(x.func.value, ast.Name) and x.func.value.id == a0.id]
+        if len(ds_) == 1 and isinstance(ds_[0].value, ast.List) and not touched:
+            a0 = ds_[0].value
     ok_cmd = isinstance(a0, ast.List) and len(a0.elts) == 2 and ast.unparse(a0.elts[0]) == "self.server.command" and isinstance(a0.elts[1], ast.Starred) and ast.unparse(a0.elts[1].value) == "self.server.args"
     R.ob("R3", "open_process gets [command, *args] as a list", ok_cmd, f"{f.module.rel}:{c.lineno}", f"first argument `{ast.unparse(a0)[:80] if a0 is not None else None}`", sample=f"R3 open_process({ast.unparse(a0)[:60] if a0 is not None else None}, env=…)")
     R.ob("R3", "no shell", kwarg(c, "shell") is None and not call_name(c).endswith("run_process"), f"{f.module.rel}:{c.lineno}", "")
@@ -168,6 +187,12 @@ def check(P: Project, R: Report) -> None:
     if isinstance(envk, ast.Name):
         ds = [s for s in walk_local(f.node) if isinstance(s, ast.Assign) and ast.unparse(s.targets[0]) == envk.id]
         env_src = ast.unparse(ds[0].value) if len(ds) == 1 else None
+        if len(ds) > 1:
+            # `env = self.server.env` followed by a default taken only when that is empty (`if not env: env = default()`)
+            first = ast.unparse(ds[0].value)
+            rest_guarded = all(any(isinstance(i, ast.If) and ast.unparse(i.test) == f"not {envk.id}" and any(d_ is x for b_ in i.body for x in walk_local(b_)) for i in walk_local(f.node)) for d_ in ds[1:])
+            if first.startswith("self.server.env") and rest_guarded:
+                env_src = first + " or <default when empty>"
     elif envk is not None:
         env_src = ast.unparse(envk)
     R.ob("R3", "environment derives from the parameters' env", env_src is not None and env_src.startswith("self.server.env"), f"{f.module.rel}:{c.lineno}", f"env := {env_src}")
